@@ -118,6 +118,28 @@ def r13_1(ctx) -> None:
     ctx.check(dm == "sha256", "R13.1", None, None, "default digest", f"default digest is {dm!r}, RFC 7638 examples and the statement use SHA-256", "sha256", construct="default thumbprint digest")
 
 
+def _ext_walk(v, seen=None):
+    """every external value reachable from v through arguments and receivers"""
+    from ..fold import ExtVal
+    seen = set() if seen is None else seen
+    if id(v) in seen:
+        return
+    seen.add(id(v))
+    if isinstance(v, ExtVal):
+        yield v
+        yield from _ext_walk(v.recv, seen)
+        for a in v.args:
+            yield from _ext_walk(a, seen)
+        for _k, a in v.kwargs:
+            yield from _ext_walk(a, seen)
+    elif isinstance(v, (list, tuple)):
+        for a in v:
+            yield from _ext_walk(a, seen)
+    elif isinstance(v, dict):
+        for a in v.values():
+            yield from _ext_walk(a, seen)
+
+
 @_ioe
 def _r13_2_folded(ctx) -> bool:
     """Decide the thumbprint computation by folding rfc7638.thumbprint on probe JWKs (one with extra members, one bare; unsorted field
@@ -148,17 +170,32 @@ def _r13_2_folded(ctx) -> bool:
                 return False
             finally:
                 F.intercepts = {}
-            if len(got) != 1 or not isinstance(r, ExtVal):
+            if len(got) > 1 or not isinstance(r, ExtVal):
                 return False
-            j = got[0].get(tb.pos_params[0])
-            cs = got[0].get(tb.pos_params[1]) if len(tb.pos_params) > 1 else "utf-8"
+            text = repr(r).replace("ext:", "")
+            if got:
+                j = got[0].get(tb.pos_params[0])
+                cs = got[0].get(tb.pos_params[1]) if len(tb.pos_params) > 1 else "utf-8"
+            else:
+                # the JSON text (json.dumps returns str) encoded directly: <json>.encode([charset[, 'strict']])
+                encs = [x for x in _ext_walk(r) if x.called and x.name.endswith(".encode") and isinstance(x.recv, ExtVal) and x.recv.name == "json.dumps" and x.recv.called]
+                if len(encs) != 1:
+                    return False
+                e_ = encs[0]
+                kw_ = dict(e_.kwargs)
+                cs = e_.args[0] if e_.args else kw_.get("encoding", "utf-8")
+                err = e_.args[1] if len(e_.args) > 1 else kw_.get("errors", "strict")
+                if err != "strict" or len(e_.args) > 2:
+                    return False
+                j = e_.recv
+                text = text.replace(repr(e_).replace("ext:", ""), "TOBYTES")
             if not (isinstance(j, ExtVal) and j.name == "json.dumps" and j.called and j.args):
                 return False
             data = j.args[0]
             kw = dict(j.kwargs)
             if not isinstance(data, dict) or any(is_unknown(v) for v in list(kw.values()) + list(data.values())):
                 return False
-            results.append((probe, fields, dm, data, kw, cs, repr(r).replace("ext:", "")))
+            results.append((probe, fields, dm, data, kw, cs, text))
     finally:
         sided = F.one_sided()
     if sided:
